@@ -1,6 +1,8 @@
 package conc
 
 import (
+	"strings"
+	"sort"
 	"bytes"
 	"context"
 	"encoding/json"
@@ -581,4 +583,217 @@ func MultiCheckpointRun(m *MultiBucket, rounds int, r *rng.R) (MultiCheckpointRe
 		}
 	}
 	return res, "", nil
+}
+
+// BystanderStopRun: a checkpointed feed A (resume mode) shares its collection with 1-2 plain live feeds that are
+// registered before or after it; one of those is stopped by its terminator while A keeps running; then two
+// documents are written, A is stopped after it delivered the second, and resumed as a dump. Taken together A's
+// runs must have delivered both (the first write after a neighbour stopped is the one at stake).
+func stopFeed(f *FeedLog) { defer func() { _ = recover() }(); close(f.Term) }
+
+func BystanderStopRun(m *MultiBucket, r *rng.R) (string, map[string]any) {
+	col := m.CollsBy[0][0]
+	ctx := context.Background()
+	const prefix, id = "cpb", "feedA"
+	startPlain := func(n int) *FeedLog {
+		f := NewFeedLog(fmt.Sprintf("plain%d", n), 0, 0)
+		if err := m.CollsBy[n%len(m.CollsBy)][0].StartDCPFeed(ctx, sgbucket.FeedArguments{ID: f.ID, Backfill: sgbucket.FeedNoBackfill, Terminator: f.Term, DoneChan: f.Done}, f.Callback, nil); err != nil {
+			return nil
+		}
+		return f
+	}
+	before, after := 1+r.Intn(2), r.Intn(2)
+	var plains []*FeedLog
+	for i := 0; i < before; i++ {
+		if f := startPlain(i); f != nil {
+			plains = append(plains, f)
+		}
+	}
+	a := NewFeedLog(id, 0, 0)
+	if err := col.StartDCPFeed(ctx, sgbucket.FeedArguments{ID: id, Backfill: sgbucket.FeedResume, CheckpointPrefix: prefix, Terminator: a.Term, DoneChan: a.Done}, a.Callback, nil); err != nil {
+		return "setup|StartDCPFeed(resume) failed: " + err.Error(), nil
+	}
+	for i := 0; i < after; i++ {
+		if f := startPlain(before + i); f != nil {
+			plains = append(plains, f)
+		}
+	}
+	defer func() {
+		for _, f := range plains {
+			stopFeed(f)
+		}
+	}()
+	info := map[string]any{"plain_feeds_registered_before": before, "after": after}
+	waitKey := func(f *FeedLog, key string) bool {
+		deadline := time.Now().Add(5 * time.Second)
+		for time.Now().Before(deadline) {
+			for _, e := range f.Snapshot() {
+				if e.Key == key {
+					return true
+				}
+			}
+			time.Sleep(200 * time.Microsecond)
+		}
+		return false
+	}
+	if err := col.SetRaw("first", 0, nil, []byte("1")); err != nil {
+		return "setup|" + err.Error(), info
+	}
+	if !waitKey(a, "first") {
+		return "setup|the checkpointed feed did not deliver a write within 5 s", info
+	}
+	// stop one neighbour
+	vi := r.Intn(len(plains))
+	victim := plains[vi]
+	info["stopped"] = victim.ID
+	stopFeed(victim)
+	select {
+	case <-victim.Done:
+	case <-time.After(10 * time.Second):
+		return "setup|a plain feed did not stop within 10 s", info
+	}
+	keys := []string{"x-after-the-stop", "y-after-the-stop"}
+	for _, k := range keys {
+		if err := col.SetRaw(k, 0, nil, []byte(k)); err != nil {
+			return "setup|" + err.Error(), info
+		}
+	}
+	waitKey(a, keys[1]) // (whether or not it arrives: the resume below must bring whatever is missing)
+	got := map[string]bool{}
+	collect := func(f *FeedLog) {
+		for _, e := range f.Snapshot() {
+			got[e.Key] = true
+		}
+	}
+	stopFeed(a)
+	select {
+	case <-a.Done:
+	case <-time.After(20 * time.Second):
+		return "hang|the checkpointed feed did not stop within 20 s of its terminator closing", info
+	}
+	collect(a)
+	d := NewFeedLog(id, 0, 0)
+	if err := col.StartDCPFeed(ctx, sgbucket.FeedArguments{ID: id, Backfill: sgbucket.FeedResume, CheckpointPrefix: prefix, Dump: true, Terminator: d.Term, DoneChan: d.Done}, d.Callback, nil); err != nil {
+		return "setup|StartDCPFeed(resume, dump) failed: " + err.Error(), info
+	}
+	select {
+	case <-d.Done:
+	case <-time.After(30 * time.Second):
+		return "hang|the resumed dump run did not finish within 30 s", info
+	}
+	collect(d)
+	for _, k := range append([]string{"first"}, keys...) {
+		if !got[k] {
+			info["delivered"] = got
+			return fmt.Sprintf("skipped|document %q, written right after a neighbouring plain feed (%s, registered %s the checkpointed one) was stopped by its terminator, was delivered by none of the checkpointed feed's runs", k, victim.ID, ifStr(vi < before, "before", "after")), info
+		}
+	}
+	return "", info
+}
+
+// LargeBackfillRun: a collection of 260-340 documents in which groups of 2-3 documents share one CAS (replicated
+// versions written through SetWithMeta / DeleteWithMeta), at fixed positions (31, 63, 99, 127, 199, 255, 299 of the
+// CAS order) and at PRNG-chosen ones. Dump feeds from 0, from a group's CAS, from just above it and from the
+// median must each deliver exactly the current version of every document with CAS >= start, once, in CAS order.
+func LargeBackfillRun(b *Bucket, r *rng.R) (int, string, map[string]any) {
+	col := b.Colls[0]
+	ctx := context.Background()
+	n := 260 + r.Intn(81)
+	groupAt := map[int]int{31: 2, 63: 2, 99: 2, 127: 2, 199: 2, 255: 2, 299: 2}
+	for i := 0; i < 5; i++ {
+		groupAt[20+r.Intn(n-40)] = 2 + r.Intn(2)
+	}
+	type doc struct {
+		cas uint64
+		del bool
+	}
+	want := map[string]doc{}
+	var groupCas []uint64
+	pos := 0
+	var lastCas uint64
+	for pos < n {
+		if g, ok := groupAt[pos]; ok {
+			shared := lastCas + 1 + uint64(r.Intn(50)) // above everything so far, below whatever the clock hands out next
+			for j := 0; j < g; j++ {
+				key := fmt.Sprintf("twin%d_%d", pos, j)
+				var err error
+				del := j == 1 && r.Chance(1, 4)
+				if del {
+					err = col.DeleteWithMeta(ctx, key, 0, shared, 0, []byte(`{"_sync":{"t":1}}`))
+				} else {
+					err = col.SetWithMeta(ctx, key, 0, shared, 0, nil, []byte(fmt.Sprintf(`{"twin":%d}`, j)), sgbucket.FeedDataTypeJSON)
+				}
+				if err != nil {
+					return 0, "setup|WithMeta write failed: " + err.Error(), nil
+				}
+				want[key] = doc{shared, del}
+			}
+			groupCas = append(groupCas, shared)
+			lastCas = shared
+			pos += g
+			continue
+		}
+		key := fmt.Sprintf("d%d", pos)
+		cas, err := col.WriteCas(key, 0, 0, []byte(fmt.Sprintf(`{"i":%d}`, pos)), 0)
+		if err != nil {
+			return 0, "setup|" + err.Error(), nil
+		}
+		want[key] = doc{cas, false}
+		lastCas = cas
+		pos++
+	}
+	var all []uint64
+	for _, d := range want {
+		all = append(all, d.cas)
+	}
+	sort.Slice(all, func(i, j int) bool { return all[i] < all[j] })
+	starts := []uint64{0, all[len(all)/2]}
+	for _, gc := range groupCas {
+		if r.Chance(1, 2) {
+			starts = append(starts, gc, gc+1)
+		}
+	}
+	dumps := 0
+	for _, start := range starts {
+		f := NewFeedLog("dump", 0, 0)
+		keysOnly := r.Chance(1, 4)
+		if err := col.StartDCPFeed(ctx, sgbucket.FeedArguments{ID: "dump", Backfill: start, Dump: true, KeysOnly: keysOnly, DoneChan: f.Done}, f.Callback, nil); err != nil {
+			return dumps, "error|dump feed from " + fmt.Sprint(start) + " failed: " + err.Error(), nil
+		}
+		select {
+		case <-f.Done:
+		case <-time.After(30 * time.Second):
+			return dumps, "hang|a dump feed did not finish within 30 s", nil
+		}
+		dumps++
+		seen := map[string]int{}
+		var prev uint64
+		for _, e := range f.Snapshot() {
+			if e.Op == uint8(sgbucket.FeedOpBeginBackfill) || e.Op == uint8(sgbucket.FeedOpEndBackfill) {
+				continue
+			}
+			w, ok := want[e.Key]
+			switch {
+			case !ok:
+				return dumps, fmt.Sprintf("ghost|a dump from %d delivered key %q, which was never written", start, e.Key), nil
+			case e.Cas != w.cas:
+				return dumps, fmt.Sprintf("version|a dump from %d delivered %q with CAS %d, its current version has %d", start, e.Key, e.Cas, w.cas), nil
+			case e.Cas < start:
+				return dumps, fmt.Sprintf("belowstart|a dump from %d delivered %q with CAS %d", start, e.Key, e.Cas), nil
+			case e.Cas < prev:
+				return dumps, fmt.Sprintf("order|a dump from %d is not in CAS order: %d after %d", start, e.Cas, prev), nil
+			case (e.Op == uint8(sgbucket.FeedOpDeletion)) != w.del:
+				return dumps, fmt.Sprintf("opcode|a dump from %d delivered %q with opcode %d, deleted=%v", start, e.Key, e.Op, w.del), nil
+			}
+			prev = e.Cas
+			seen[e.Key]++
+		}
+		for k, w := range want {
+			if w.cas >= start && seen[k] != 1 {
+				return dumps, fmt.Sprintf("omitted|a dump from %d over %d documents delivered %q (CAS %d, shared with another document: %v) %d times", start, len(want), k, w.cas, strings.HasPrefix(k, "twin"), seen[k]),
+					map[string]any{"documents": len(want), "start": start, "groups_sharing_a_cas": len(groupCas)}
+			}
+		}
+	}
+	return dumps, "", map[string]any{"documents": len(want), "groups_sharing_a_cas": len(groupCas), "dumps": dumps}
 }
